@@ -325,7 +325,7 @@ func propC13(col *Collector, known bool) func(rt *rapid.T) {
 // message the writer ACCEPTED (its write call returned nil) must still be read by the peer intact and in order.
 func TestC13WriteFault(t *testing.T) {
 	col := NewCollector("TestC13WriteFault",
-		"rapid: 2-7 messages (kind, boundary-biased length, write path, chunking) through a writer Conn (drawn buffer size, role); one Write of the underlying stream, at a drawn byte offset of the whole sequence, takes only the bytes up to that offset and fails (transient: later stream writes succeed again); the writer carries on with the remaining messages on every path, ignoring errors; oracle: the messages whose write call returned nil are exactly what the peer reads, intact and in order, before its first error. non-trivial: the fault fell inside a frame and at least one message was attempted after it").Use(t)
+		"rapid: 2-7 messages (kind, boundary-biased length, write path, chunking) through a writer Conn (drawn buffer size, role); one Write of the underlying stream, at a drawn byte offset of the whole sequence, takes only the bytes up to that offset and fails with a plain error or a net.Error calling itself a timeout or temporary (transient: later stream writes succeed again); the writer carries on with the remaining messages on every path, ignoring errors; oracle: the messages whose write call returned nil are exactly what the peer reads, intact and in order, before its first error. non-trivial: the fault fell inside a frame and at least one message was attempted after it").Use(t)
 	rapid.Check(t, func(rt *rapid.T) {
 		W := rapid.SampledFrom([]int{0, 16, 64, 128, 1024, 4096}).Draw(rt, "W")
 		eW := effW(W)
@@ -343,7 +343,17 @@ func TestC13WriteFault(t *testing.T) {
 		at := rapid.IntRange(0, total).Draw(rt, "faultAt")
 		journal("C13 fault W=%d server=%v msgs=%v faultAt=%d", W, isServer, msgs, at)
 		pipe := newHalfPipe()
-		pipe.failWriteAt, pipe.failWriteE, pipe.failWriteTransient = int64(at), errInjected, true
+		// what the stream calls the failure: a plain error, or a net.Error that calls itself a timeout (a missed write
+		// deadline) or temporary; whatever its type, part of a frame is on the wire
+		var ferr error = errInjected
+		errKind := rapid.SampledFrom([]string{"plain", "timeout", "timeout", "temporary"}).Draw(rt, "errorKind")
+		switch errKind {
+		case "timeout":
+			ferr = &c15NetErr{msg: "i/o timeout (write deadline)", timeout: true}
+		case "temporary":
+			ferr = &c15NetErr{msg: "temporary failure", temporary: true}
+		}
+		pipe.failWriteAt, pipe.failWriteE, pipe.failWriteTransient = int64(at), ferr, true
 		wc := webtrans.NewConn(nil, &memWTStream{out: pipe, in: newHalfPipe()}, isServer, 0, W, nil, nil, nil)
 		rc := webtrans.NewConn(nil, &memWTStream{in: pipe, out: newHalfPipe()}, !isServer, 0, 0, nil, nil, nil)
 		type wm struct {
@@ -375,7 +385,7 @@ func TestC13WriteFault(t *testing.T) {
 		}
 		classes := []string{fmt.Sprintf("role.server=%v", isServer)}
 		if failedAt >= 0 {
-			classes = append(classes, "a-write-failed")
+			classes = append(classes, "a-write-failed", "write-error."+errKind)
 			if failedAt < len(msgs)-1 {
 				classes = append(classes, "messages-attempted-after-the-failure", "after.path."+wtPathNames[msgs[failedAt+1].Path])
 			}
@@ -393,5 +403,5 @@ func TestC13WriteFault(t *testing.T) {
 			}
 		}
 	})
-	col.RequireClasses(t, "a-write-failed", "messages-attempted-after-the-failure", "after.path.WritePreparedMessage", "after.path.WriteMessage", "after.path.NextWriter+Write")
+	col.RequireClasses(t, "a-write-failed", "write-error.timeout", "write-error.temporary", "messages-attempted-after-the-failure", "after.path.WritePreparedMessage", "after.path.WriteMessage", "after.path.NextWriter+Write")
 }
